@@ -70,7 +70,7 @@ func registry() []PropSpec {
 				{Pkg: pkgTracer, Func: "H16a_q", Unwind: 10, HookLimit: 6, Note: "Tracer: every sequence of 4 operations from {Init, Complete, Clear, Await} over 2 test names; an Await that blocks lets the rest of the script run (nested waits included) and ends with its context when the script is over"},
 			},
 			Thorough: []HarnessSpec{
-				{Pkg: pkgTracer, Func: "H16a_t", Unwind: 10, HookLimit: 8, JobSecs: 1800, ExecSecs: 1500, Note: "sequences of 6 operations"},
+				{Pkg: pkgTracer, Func: "H16a_t", Unwind: 10, HookLimit: 8, JobSecs: 1800, ExecSecs: 1500, Note: "sequences of 5 operations"},
 			},
 			Stubs: []string{"context = fake with a done channel; sync.Mutex sequential; a blocked select runs the remaining operations of the script (atomic-step schedules), natively the waiter runs in a goroutine"},
 			Out:   []string{"data races and interleavings inside a lock-protected section (needs a memory-model checker)", "client-side builder branches (HTTP version fix-up via reflection)"},
@@ -100,7 +100,6 @@ func registry() []PropSpec {
 				{Pkg: pkgInternal, Func: "H18e_q", Unwind: 12, Note: "StrictProtoCodec / StrictJSONCodec: Marshal, MarshalAppend, MarshalStable followed by Unmarshal on an arbitrary message; any 1..3 unknown-field bytes are rejected"},
 			},
 			Thorough: []HarnessSpec{
-				{Pkg: pkgGrpcutil, Func: "H18a_t", Unwind: 20, JobSecs: 1500, ExecSecs: 1200, Note: "byte strings of length <=4"},
 				{Pkg: pkgGrpcutil, Func: "H18b_q", Unwind: 12, Note: "as quick"},
 			},
 			Stubs: []string{"strings.Builder modelled on its buffer", "connect.EncodeBinaryHeader/DecodeBinaryHeader are an inverse-pair contract stub in the engine (real base64 natively)", "proto / protojson (un)marshalling are format-tagged inverse-pair contract stubs ('P' / 'J'); natively the real libraries run on a real message"},
@@ -112,6 +111,7 @@ func registry() []PropSpec {
 				{Pkg: pkgRefServer, Func: "H17c_q", Unwind: 10, Note: "rawResponseWriter: every sequence of <=4 operations from {Write, WriteHeader, Flush, setRawResponse}"},
 				{Pkg: pkgRefServer, Func: "H17d_q", Unwind: 10, Note: "rawResponseWriter.finish: status unset/201/503, 2 raw header values, 1 trailer, unary identity body of <=2 symbolic bytes, a handler-set header and a handler write that must not survive"},
 				{Pkg: pkgInternal, Func: "H17a_q", Unwind: 12, UnwindFor: map[string]int{"h17a": 44}, Note: "WriteRawStreamContents/WriteRawMessageContents, identity compression: <=2 items, flags 0..300, explicit length any uint32 or computed, payload <=2 symbolic bytes or absent; destination is a recording WriteCloser"},
+				{Pkg: pkgInternal, Func: "H17t_q", Unwind: 12, Note: "AddHeaders / AddTrailers with 1..3 entries naming x-foo or X-Foo: one key, all values in the given order"},
 				{Pkg: pkgInternal, Func: "H17e_q", Unwind: 12, Only: []string{"connectrpc.com/conformance/internal/compression.GetCompressor=vModelGetCompressor"}, UnwindFor: map[string]int{"H17e_q": 44}, Note: "WriteRawMessageContents with per-item compression: compression 0..7 (unspecified, identity, 5 algorithms, unknown), data absent / binary / binary message / text, payload of 0..2 symbolic bytes; compressors are a framing model symbolically (header byte, payload, trailer byte on Close) and the real ones natively"},
 			},
 			Stubs: []string{"destination writer = recording stub with a Close method", "bytes.Buffer modelled on its fields"},
@@ -164,7 +164,7 @@ func registry() []PropSpec {
 			},
 			Thorough: []HarnessSpec{
 				{Pkg: pkgCC, Func: "H10a_q", Unwind: 8, Note: "as quick"},
-				{Pkg: pkgCC, Func: "H10b_t", Unwind: 10, JobSecs: 1800, ExecSecs: 1500, Note: "<=3 sends, <=3 responses"},
+				{Pkg: pkgCC, Func: "H10b_t", Unwind: 10, JobSecs: 1800, ExecSecs: 1500, Note: "<=3 sends, <=2 responses"},
 			},
 			Stubs: []string{"internal.ReadDelimitedMessage / WriteDelimitedMessage replaced by stubs (their own behaviour is C09): the read stub yields a symbolic response name or the terminal error and is a scheduling point at which pending sends run", "process = fake controller", "goroutines run at spawn; mutexes sequential; time.After fires only when nothing else is ready"},
 			Out:   []string{"true concurrency of senders and reader inside one atomic step", "real pipes and OS processes"},
@@ -175,7 +175,6 @@ func registry() []PropSpec {
 				{Pkg: pkgCC, Func: "H04a_q", Unwind: 16, Note: "report(): <=2 named cases, each present or not, outcome in {pass, failure, could-not-run}, setup-error / known-failing / known-flaky flags, peer feedback present or not, 0..2 selected cases without any outcome"},
 			},
 			Thorough: []HarnessSpec{
-				{Pkg: pkgCC, Func: "H04a_t", Unwind: 16, JobSecs: 1800, ExecSecs: 1200, Note: "as quick with <=3 named cases"},
 			},
 			Stubs: []string{"printer = recording stub (FAILED/INFO names, totals)", "indent() is the identity (message layout is not the subject)", "sync.Mutex/WaitGroup sequential"},
 			Out:   []string{"Run()/run() orchestration: the conjunction `report() && err == nil` and process handling are read off the source, not encoded", "HTTP trace printing"},
